@@ -15,7 +15,7 @@
   choice `mv` (does `realloc` move the block).  The history theorems carry the explicit, decidable hypothesis `AOp.NoAlias`
   ("the operand's bytes do not lie in the target's allocation"); the region it excludes is known finding KF-C16-alias-operand:
   the full statement `C16_alias_statement stepA` is refuted (`C16_alias_refuted`, `C16_alias_operand_refuted`,
-  `C16_alias_always_undefined`), what does hold there is `C16_alias_partial`, and the proposed repair satisfies the full
+  `C16_alias_always_undefined`, and `C16_show_self_refuted` for `show_to(s, s, pos)`), what does hold there is `C16_alias_partial`, and the proposed repair satisfies the full
   statement (`C16_alias_repaired`).
   `hash`: `String_Hash` is `hash_data(s->val, strlen(s->val))`; `hash_data` is engine `hash`'s (C10) model `Cello.Hash.hashData`,
   proved there to be MurmurHash64A — `C16_hash_is_murmur` composes the two.
@@ -579,6 +579,20 @@ theorem C16_alias_always_undefined {P : Params} (hP : P.Lawful) (J : Nat → Byt
     intro hm render; subst hm
     show (formatAt P J true s pos render off).out.isUB = true
     rw [(moved_is_useAfterFree P J s off hin pos render).2.2]; rfl
+
+/-- **`show_to(s, s, pos)` / `print_to(s, pos, "%$", s)` — String_Show into the String it shows — never yields the shown
+    text**: `String_Show` walks `s->val` with a cursor while every `print_to` it makes reallocates that block.  For every
+    lawful size arithmetic, well-formed target and position inside the text: as soon as the first character's `print_to` moves
+    the block (`mv 1`), the next `*v` reads freed memory; and on "hi" with an allocator that never moves, the walk is still
+    running after 40 characters (the text grows as fast as the cursor advances) — by value the result would be `"hi"` in
+    quotes.  Same finding (KF-C16-alias-operand, site String_Show): the shown object's bytes lie in the target's buffer. -/
+theorem C16_show_self_refuted :
+    (∀ {P : Params}, P.Lawful → ∀ (J : Nat → Byte) (mv : Nat → Bool), mv 1 = true → ∀ (fuel : Nat) (s : Str), s.WF →
+      ∀ pos, pos ≤ s.abs.length → ∃ r, showSelf P J mv (fuel + 2) s pos = some r ∧ r.out = .ub .useAfterFree) ∧
+    (showSelf .modelled (fun _ => 165) (fun _ => true) 8 ⟨[104, 105, 0]⟩ 0).map (·.out) = some (.ub .useAfterFree) ∧
+    showSelf .modelled (fun _ => 165) (fun _ => false) 40 ⟨[104, 105, 0]⟩ 0 = none ∧
+    (showFrags [104, 105]).flatten = [34, 104, 105, 34] := by
+  refine ⟨fun hP J mv hmv fuel s hs pos hpos => showSelf_moved_ub hP J mv hmv fuel s hs pos hpos, by decide, by decide +kernel, by decide⟩
 
 /-- **what does hold for aliased operands** (`_partial`: the part of `C16_alias_statement stepA` that is true).
     `rem(s, obj)` with `obj` the target or a view into it makes no `realloc` and reads the operand completely before its one
